@@ -42,7 +42,7 @@ def run(prop, replay=None):
         raise vlib.ToolError("GEN produced only %d cases" % len(cases))
     cpath, rpath, tpath = os.path.join(w, "cases.ndjson"), os.path.join(w, "report.json"), os.path.join(w, "trace.ndjson")
     write_ndjson(cpath, cases)
-    run_harness("vh", ["join-replay", cpath, rpath, tpath])
+    run_harness("vh", ["join-replay", cpath, rpath, tpath, 2100])
     rep = load_report(rpath)
     v.add_report(rep)
     const = ["CONSTANTS", '  Srcs = {"A","B"}', "  Keys = {1,2}", "  W = 20", "  MaxLen = 1000000", "  Steps = {0}", "  Back = 0"]
